@@ -109,6 +109,10 @@ type simpleRequest struct {
 	// redirections is the number of times the request has been sent again
 	// because of a MOVED or ASK response.
 	redirections int
+
+	// asking indicates the request must be sent right after an ASKING
+	// command, it's set when the request is redirected by an ASK response.
+	asking bool
 }
 
 func newSimpleRequest(v *RespValue) *simpleRequest {
